@@ -3,6 +3,8 @@ package c19
 import (
 	"errors"
 	"fmt"
+	"os"
+	"path/filepath"
 	"strconv"
 	"strings"
 	"testing"
@@ -189,7 +191,50 @@ func doDeny(sub string, c denyCase, class string) string {
 	return o.msg
 }
 
+// enterModuleDir makes the working directory one that really contains the
+// modules and data files the deny programs name (m.jq, n.jq, data.json,
+// a/b.json, .jq), so that a compiler that reached the file system would find
+// them.  The returned function restores the previous directory.
+func enterModuleDir() (func(), error) {
+	old, err := os.Getwd()
+	if err != nil {
+		return nil, err
+	}
+	dir, err := os.MkdirTemp("", "c19-deny-")
+	if err != nil {
+		return nil, err
+	}
+	files := map[string]string{"m.jq": "def f: \"reached m.jq\";", "n.jq": "def g: \"reached n.jq\";", "data.json": "{\"d\": \"reached data.json\"}", ".jq": "def f: \"reached .jq\";",
+		"a/b.json": "[\"reached a/b.json\"]", "a/b.jq": "def f: \"reached a/b.jq\";", "sub/keep": ""}
+	for name, text := range files {
+		p := filepath.Join(dir, name)
+		if err := os.MkdirAll(filepath.Dir(p), 0o755); err == nil {
+			err = os.WriteFile(p, []byte(text), 0o644)
+		}
+		if err != nil {
+			os.RemoveAll(dir)
+			return nil, err
+		}
+	}
+	// "..", "/tmp/m" style names: also the parent directory holds a module
+	if err := os.Chdir(filepath.Join(dir, "sub")); err != nil {
+		os.RemoveAll(dir)
+		return nil, err
+	}
+	for _, name := range []string{"m.jq", "n.jq", "data.json", ".jq"} {
+		os.WriteFile(filepath.Join(dir, "sub", name), []byte(files[name]), 0o644)
+	}
+	os.MkdirAll(filepath.Join(dir, "sub", "a"), 0o755)
+	os.WriteFile(filepath.Join(dir, "sub", "a", "b.json"), []byte(files["a/b.json"]), 0o644)
+	return func() { os.Chdir(old); os.RemoveAll(dir) }, nil
+}
+
 func runDeny(t *testing.T) {
+	leave, err := enterModuleDir()
+	if err != nil {
+		t.Fatalf("deny: %v", err)
+	}
+	defer leave()
 	// (E) capability x embedding x single option: bounded-exhaustive
 	idx := 0
 	complete := true
